@@ -332,7 +332,7 @@ Proof.
   unfold prefix_ci. rewrite is_prefix_iff. split.
   - intros [b' H]. unfold lower_ascii in H at 1. apply map_eq_app_split in H as [H1 H2].
     eexists _, _. split; [exact H1 | exact H2].
-  - intros [m [b [-> H]]]. exists (lower_ascii b). unfold lower_ascii in *. rewrite map_app, H. reflexivity.
+  - intros [m [b [-> H]]]. exists (lower_ascii b). unfold lower_ascii in *. rewrite map_app. f_equal. exact H.
 Qed.
 
 Lemma prefix_ci_firstn p s :
@@ -360,7 +360,7 @@ Lemma la_fold_none s ps : forall best,
 Proof.
   induction ps as [|p ps IH]; intros best; cbn [fold_left].
   - split; [intros ->; split; [reflexivity | intros ? []] | intros [-> _]; reflexivity].
-  - rewrite IH. unfold la_step at 2. split.
+  - rewrite IH. unfold la_step. split.
     + intros [H1 H2]. destruct (prefix_ci p s) eqn:E.
       * destruct best as [l|]; [destruct (l <? length p)%nat|]; discriminate.
       * split; [exact H1|]. intros q [<-|Hq]; [exact E | apply H2; exact Hq].
@@ -510,7 +510,7 @@ Proof.
   - apply Nat.ltb_lt in E. cbn [fst]. split; [discriminate|].
     intros H. exfalso. exact (pm_minlen_sound ps v E H).
   - cbn [fst]. rewrite <- ac_matches_nonempty_iff.
-    destruct (ac_matches ps v); split; try discriminate; try reflexivity; intros H; [contradiction|discriminate].
+    destruct (ac_matches ps v); split; intros H; try discriminate; try reflexivity; try (exfalso; apply H; reflexivity).
 Qed.
 
 (* the captured texts: at most ten, each an occurrence of a listed phrase in the value *)
@@ -609,4 +609,874 @@ Proof.
   exists [255], [255]. split; [vm_compute; reflexivity|].
   exists [255]. split; [left; reflexivity|]. split; [discriminate|].
   exists [], [255], []. split; reflexivity.
+Qed.
+
+(* ==================================================================================== *)
+(* @validateUrlEncoding                                                                  *)
+(* ==================================================================================== *)
+Lemma hex_not_pct c : is_hex_digit c = true -> (c =? 37) = false.
+Proof.
+  unfold is_hex_digit, is_digit. intros H. apply N.eqb_neq.
+  rewrite !orb_true_iff, !andb_true_iff, !N.leb_le in H. lia.
+Qed.
+
+Fixpoint hexprefix (k : nat) (s : bytes) : Prop :=
+  match k with
+  | O => True
+  | S k' => match s with
+            | c :: r => is_hex_digit c = true /\ hexprefix k' r
+            | [] => True
+            end
+  end.
+
+Lemma pct_ok_cons_other c r : (c =? 37) = false -> (Spec.pct_ok (c :: r) <-> Spec.pct_ok r).
+Proof.
+  intros Hc. unfold Spec.pct_ok. split.
+  - intros H i Hi. apply (H (S i)). exact Hi.
+  - intros H i Hi. destruct i as [|i].
+    + cbn in Hi. inversion Hi; subst. rewrite N.eqb_refl in Hc. discriminate.
+    + apply (H i). exact Hi.
+Qed.
+
+Lemma pct_ok_cons_pct r :
+  Spec.pct_ok (37 :: r) <->
+  (exists h1 h2 r', r = h1 :: h2 :: r' /\ is_hex_digit h1 = true /\ is_hex_digit h2 = true) /\ Spec.pct_ok r.
+Proof.
+  unfold Spec.pct_ok. split.
+  - intros H. split.
+    + destruct (H 0%nat eq_refl) as [h1 [h2 [E1 [E2 [X1 X2]]]]].
+      destruct r as [|a [|b r']]; cbn in E1, E2; try discriminate.
+      inversion E1; inversion E2; subst. exists h1, h2, r'. repeat split; assumption.
+    + intros i Hi. apply (H (S i)). exact Hi.
+  - intros [[h1 [h2 [r' [-> [X1 X2]]]]] H] i Hi. destruct i as [|i].
+    + exists h1, h2. repeat split; assumption.
+    + apply (H i). exact Hi.
+Qed.
+
+Lemma vue_scan_spec s : forall k, hexprefix k s -> (vue_scan s k = 0 <-> Spec.pct_ok s).
+Proof.
+  induction s as [|c r IH]; intros k Hk.
+  - cbn [vue_scan]. split; [intros _ i Hi; destruct i; discriminate | reflexivity].
+  - cbn [vue_scan]. destruct k as [|k'].
+    + destruct (c =? 37) eqn:Ec; cbn [negb].
+      * apply N.eqb_eq in Ec. subst c. rewrite pct_ok_cons_pct.
+        destruct r as [|h1 [|h2 r']].
+        -- split; [discriminate|]. intros [[? [? [? [E _]]]] _]. discriminate.
+        -- split; [discriminate|]. intros [[? [? [? [E _]]]] _]. discriminate.
+        -- destruct (is_hex_digit h1) eqn:X1; cbn [negb orb].
+           ++ destruct (is_hex_digit h2) eqn:X2; cbn [negb].
+              ** rewrite (IH 2%nat) by (cbn; auto). split.
+                 --- intros H. split; [|exact H]. exists h1, h2, r'. auto.
+                 --- intros [_ H]. exact H.
+              ** split; [discriminate|]. intros [[a [b [r2 [E [Y1 Y2]]]]] _]. inversion E; subst. congruence.
+           ++ split; [discriminate|]. intros [[a [b [r2 [E [Y1 Y2]]]]] _]. inversion E; subst. congruence.
+      * rewrite (IH 0%nat) by exact I. symmetry. apply pct_ok_cons_other. exact Ec.
+    + cbn [hexprefix] in Hk. destruct Hk as [Hc Hk].
+      rewrite (IH k') by exact Hk. symmetry. apply pct_ok_cons_other. apply hex_not_pct. exact Hc.
+Qed.
+
+(* @validateUrlEncoding matches exactly when some '%' is not followed by two hex digits *)
+Lemma vue_eval_exact v : vue_eval v = true <-> Spec.vue v.
+Proof.
+  unfold vue_eval, Spec.vue. destruct v as [|c r].
+  - split; [discriminate|]. intros H. exfalso. apply H. intros i Hi. destruct i; discriminate.
+  - rewrite negb_true_iff, N.eqb_neq. rewrite (vue_scan_spec (c :: r) 0 I). reflexivity.
+Qed.
+
+(* ==================================================================================== *)
+(* @validateByteRange                                                                    *)
+(* ==================================================================================== *)
+Lemma set_nth_length i t : length (set_nth i t) = length t.
+Proof. revert i; induction t as [|b r IH]; intros [|i]; cbn; auto. Qed.
+
+Lemma set_nth_lookup i t j :
+  nth j (set_nth i t) false = (nth j t false || (Nat.eqb i j && (j <? length t)%nat)).
+Proof.
+  revert i j; induction t as [|b r IH]; intros i j.
+  - destruct i, j; cbn; rewrite ?andb_false_r; reflexivity.
+  - destruct i as [|i], j as [|j]; cbn [set_nth nth Nat.eqb length].
+    + cbn. rewrite orb_true_r. reflexivity.
+    + cbn. rewrite orb_false_r. reflexivity.
+    + cbn. rewrite orb_false_r. reflexivity.
+    + rewrite IH. reflexivity.
+Qed.
+
+Lemma set_range_length cnt : forall i t, length (set_range cnt i t) = length t.
+Proof. induction cnt; intros i t; cbn [set_range]; [reflexivity|]. rewrite IHcnt. apply set_nth_length. Qed.
+
+Ltac bool_nat :=
+  repeat match goal with
+  | |- context [(?a <=? ?b)%nat] => destruct (Nat.leb_spec a b)
+  | |- context [(?a <? ?b)%nat] => destruct (Nat.ltb_spec a b)
+  | |- context [Nat.eqb ?a ?b] => destruct (Nat.eqb_spec a b)
+  end; cbn [andb orb]; try reflexivity; try lia.
+
+Lemma set_range_lookup cnt : forall i t j,
+  nth j (set_range cnt i t) false
+  = (nth j t false || ((i <=? j)%nat && (j <? i + cnt)%nat && (j <? length t)%nat)).
+Proof.
+  induction cnt as [|c IH]; intros i t j; cbn [set_range].
+  - destruct (nth j t false); cbn [orb]; [reflexivity|]. bool_nat.
+  - rewrite IH, set_nth_lookup, set_nth_length.
+    destruct (nth j t false); cbn [orb]; [reflexivity|].
+    destruct (j <? length t)%nat; rewrite ?andb_false_r, ?andb_true_r; cbn [orb]; [|reflexivity].
+    bool_nat.
+Qed.
+
+Lemma vbr_lookup_empty b : vbr_lookup vbr_empty b = false.
+Proof.
+  unfold vbr_lookup, vbr_empty. generalize (N.to_nat b). intros n.
+  generalize 256%nat. intros m. revert n. induction m; intros [|n]; cbn; auto.
+Qed.
+
+(* one item: error exactly when it denotes no range; otherwise the table gains exactly the
+   bytes of its range *)
+Lemma vbr_item_spec item t :
+  length t = 256%nat ->
+  match vbr_item item t, Spec.vbr_item_range item with
+  | None, None => True
+  | Some t', Some (lo, hi) =>
+    length t' = 256%nat /\
+    forall b, vbr_lookup t' b = (vbr_lookup t b || ((lo <=? Z.of_N b)%Z && (Z.of_N b <=? hi)%Z))
+  | _, _ => False
+  end.
+Proof.
+  intros Hlen. unfold vbr_item, Spec.vbr_item_range.
+  destruct (cut_byte 45 (trim_space item)) as [[st en] found].
+  destruct (go_atoi st) as [s es]. destruct (es =? 0); cbn [negb andb]; [|exact I].
+  unfold valid_byte_z. destruct ((0 <=? s)%Z && (s <=? 255)%Z) eqn:Vs; cbn [negb]; [|exact I].
+  apply andb_true_iff in Vs as [Vs1 Vs2]. apply Z.leb_le in Vs1, Vs2.
+  destruct found; cbn [negb].
+  - destruct (go_atoi en) as [e ee]. destruct (ee =? 0); cbn [negb andb]; [|exact I].
+    destruct ((0 <=? e)%Z && (e <=? 255)%Z) eqn:Ve; cbn [negb]; [|exact I].
+    apply andb_true_iff in Ve as [Ve1 Ve2]. apply Z.leb_le in Ve1, Ve2.
+    split; [rewrite set_range_length; exact Hlen|].
+    intros b. unfold vbr_lookup. rewrite set_range_lookup, Hlen. f_equal.
+    destruct (s <=? Z.of_N b)%Z eqn:A, (Z.of_N b <=? e)%Z eqn:B; cbn [andb];
+      try apply Z.leb_le in A; try apply Z.leb_le in B; try apply Z.leb_gt in A; try apply Z.leb_gt in B.
+    + apply andb_true_iff. split; [apply andb_true_iff; split|]; [apply Nat.leb_le | apply Nat.ltb_lt | apply Nat.ltb_lt]; lia.
+    + apply andb_false_iff. left. apply andb_false_iff. right. apply Nat.ltb_ge. lia.
+    + apply andb_false_iff. left. apply andb_false_iff. left. apply Nat.leb_gt. lia.
+    + apply andb_false_iff. left. apply andb_false_iff. left. apply Nat.leb_gt. lia.
+  - split; [rewrite set_nth_length; exact Hlen|].
+    intros b. unfold vbr_lookup. rewrite set_nth_lookup, Hlen. f_equal.
+    destruct (s <=? Z.of_N b)%Z eqn:A, (Z.of_N b <=? s)%Z eqn:B; cbn [andb];
+      try apply Z.leb_le in A; try apply Z.leb_le in B; try apply Z.leb_gt in A; try apply Z.leb_gt in B.
+    + apply andb_true_iff. split; [apply Nat.eqb_eq | apply Nat.ltb_lt]; lia.
+    + apply andb_false_iff. left. apply Nat.eqb_neq. lia.
+    + apply andb_false_iff. left. apply Nat.eqb_neq. lia.
+    + lia.
+Qed.
+
+Lemma vbr_items_spec items : forall t,
+  length t = 256%nat ->
+  match vbr_items items t with
+  | None => exists it, In it items /\ Spec.vbr_item_range it = None
+  | Some t' =>
+    (forall it, In it items -> Spec.vbr_item_range it <> None) /\
+    forall b, vbr_lookup t' b = true <-> (vbr_lookup t b = true \/ Spec.vbr_allowed items b)
+  end.
+Proof.
+  induction items as [|it r IH]; intros t Hlen; cbn [vbr_items].
+  - split; [intros ? []|]. intros b. split; [auto|]. intros [H|[it [lo [hi [[] _]]]]]. exact H.
+  - pose proof (vbr_item_spec it t Hlen) as Hit.
+    destruct (vbr_item it t) as [t'|] eqn:E1, (Spec.vbr_item_range it) as [[lo hi]|] eqn:E2; try contradiction.
+    + destruct Hit as [Hlen' Hlk]. specialize (IH t' Hlen').
+      destruct (vbr_items r t') as [t''|].
+      * destruct IH as [IH1 IH2]. split.
+        -- intros x [<-|Hx]; [congruence | apply IH1; exact Hx].
+        -- intros b. rewrite IH2, Hlk, orb_true_iff, andb_true_iff, !Z.leb_le. split.
+           ++ intros [[H|H]|[x [l [h [Hx Hr]]]]].
+              ** left; exact H.
+              ** right. exists it, lo, hi. split; [left; reflexivity|]. split; [exact E2 | exact H].
+              ** right. exists x, l, h. split; [right; exact Hx | exact Hr].
+           ++ intros [H|[x [l [h [[<-|Hx] [Hr Hb]]]]]].
+              ** left; left; exact H.
+              ** rewrite E2 in Hr. inversion Hr; subst. left; right. exact Hb.
+              ** right. exists x, l, h. split; [exact Hx|]. split; assumption.
+      * destruct IH as [x [Hx Hn]]. exists x. split; [right; exact Hx | exact Hn].
+    + exists it. split; [left; reflexivity | exact E2].
+Qed.
+
+Lemma vbr_eval_iff t v :
+  vbr_eval t v = true <-> exists b, In b v /\ vbr_lookup t b = false.
+Proof.
+  unfold vbr_eval. destruct v as [|c r].
+  - split; [discriminate | intros [b [[] _]]].
+  - rewrite existsb_exists. split; intros [b [Hb H]]; exists b; (split; [exact Hb|]).
+    + apply negb_true_iff. exact H.
+    + apply negb_true_iff. exact H.
+Qed.
+
+(* @validateByteRange with a non-empty argument: constructor error exactly when some
+   comma-separated item is malformed; otherwise it matches exactly when the value has a byte
+   that no item allows (reversed ranges allow nothing, overlapping ranges are a union) *)
+Lemma run_vbr_exact arg v :
+  arg <> [] ->
+  match run_vbr arg v with
+  | None => exists it, In it (split_byte 44 arg) /\ Spec.vbr_item_range it = None
+  | Some r => (forall it, In it (split_byte 44 arg) -> Spec.vbr_item_range it <> None)
+              /\ (r = true <-> Spec.vbr (split_byte 44 arg) v)
+  end.
+Proof.
+  intros Hne. unfold run_vbr, vbr_new. destruct arg as [|c a]; [contradiction|].
+  set (items := split_byte 44 (c :: a)).
+  assert (Hlen : length vbr_empty = 256%nat) by reflexivity.
+  pose proof (vbr_items_spec items vbr_empty Hlen) as H.
+  destruct (vbr_items items vbr_empty) as [t|]; [|exact H].
+  destruct H as [H1 H2]. split; [exact H1|].
+  rewrite vbr_eval_iff. unfold Spec.vbr. split.
+  - intros [b [Hb Hl]]. exists b. split; [exact Hb|]. intros Ha.
+    assert (vbr_lookup t b = true) by (apply H2; right; exact Ha). congruence.
+  - intros [b [Hb Hn]]. exists b. split; [exact Hb|].
+    destruct (vbr_lookup t b) eqn:E; [|reflexivity].
+    apply H2 in E as [E|E]; [rewrite vbr_lookup_empty in E; discriminate | contradiction].
+Qed.
+
+(* ==================================================================================== *)
+(* numeric operators: strconv.Atoi with ignored errors                                    *)
+(* ==================================================================================== *)
+Definition dv_step (a d : N) : N := a * 10 + (d - 48).
+Lemma digits_value_unfold ds : Spec.digits_value ds = fold_left dv_step ds 0.
+Proof. reflexivity. Qed.
+
+Lemma dv_fold_ge r : forall m, m <= fold_left dv_step r m.
+Proof.
+  induction r as [|c r IH]; intros m; cbn [fold_left]; [lia|].
+  etransitivity; [|apply IH]. unfold dv_step. lia.
+Qed.
+
+Lemma pul_digits s : forall n,
+  forallb is_digit s = true -> n < two64 ->
+  parse_uint_loop s n =
+  if fold_left dv_step s n <? two64 then (fold_left dv_step s n, 0) else (two64 - 1, 2).
+Proof.
+  induction s as [|c r IH]; intros n Hd Hn; cbn [parse_uint_loop fold_left].
+  - apply N.ltb_lt in Hn. rewrite Hn. reflexivity.
+  - cbn [forallb] in Hd. apply andb_true_iff in Hd as [Hc Hr]. rewrite Hc. cbn [negb].
+    pose proof (dv_fold_ge r (dv_step n c)) as Hge.
+    destruct (pu_cutoff <=? n) eqn:E1.
+    + apply N.leb_le in E1.
+      assert (two64 <= fold_left dv_step r (dv_step n c)).
+      { etransitivity; [|exact Hge]. unfold dv_step, two64, pu_cutoff in *. lia. }
+      apply N.ltb_ge in H. rewrite H. reflexivity.
+    + fold (dv_step n c). destruct (two64 <=? dv_step n c) eqn:E2.
+      * apply N.leb_le in E2.
+        assert (two64 <= fold_left dv_step r (dv_step n c)) by (etransitivity; eassumption).
+        apply N.ltb_ge in H. rewrite H. reflexivity.
+      * apply N.leb_gt in E2. apply IH; assumption.
+Qed.
+
+Lemma pul_junk ds j rest : forall n,
+  forallb is_digit ds = true -> is_digit j = false -> n < two64 ->
+  parse_uint_loop (ds ++ j :: rest) n =
+  if fold_left dv_step ds n <? two64 then (0, 1) else (two64 - 1, 2).
+Proof.
+  induction ds as [|c r IH]; intros n Hd Hj Hn; cbn [app parse_uint_loop fold_left].
+  - rewrite Hj. cbn [negb]. apply N.ltb_lt in Hn. rewrite Hn. reflexivity.
+  - cbn [forallb] in Hd. apply andb_true_iff in Hd as [Hc Hr]. rewrite Hc. cbn [negb].
+    pose proof (dv_fold_ge r (dv_step n c)) as Hge.
+    destruct (pu_cutoff <=? n) eqn:E1.
+    + apply N.leb_le in E1.
+      assert (two64 <= fold_left dv_step r (dv_step n c)).
+      { etransitivity; [|exact Hge]. unfold dv_step, two64, pu_cutoff in *. lia. }
+      apply N.ltb_ge in H. rewrite H. reflexivity.
+    + fold (dv_step n c). destruct (two64 <=? dv_step n c) eqn:E2.
+      * apply N.leb_le in E2.
+        assert (two64 <= fold_left dv_step r (dv_step n c)) by (etransitivity; eassumption).
+        apply N.ltb_ge in H. rewrite H. reflexivity.
+      * apply N.leb_gt in E2. apply IH; assumption.
+Qed.
+
+Fixpoint lead_digits (s : bytes) : bytes :=
+  match s with
+  | c :: r => if is_digit c then c :: lead_digits r else []
+  | [] => []
+  end.
+
+Lemma lead_digits_split s :
+  forallb is_digit s = false ->
+  exists j rest, s = lead_digits s ++ j :: rest /\ is_digit j = false
+                 /\ forallb is_digit (lead_digits s) = true.
+Proof.
+  induction s as [|c r IH]; cbn [forallb lead_digits]; [discriminate|].
+  destruct (is_digit c) eqn:E; cbn [andb].
+  - intros H. destruct (IH H) as [j [rest [H1 [H2 H3]]]].
+    exists j, rest. cbn [app forallb]. rewrite E, H3, <- H1. auto.
+  - intros _. exists c, r. auto.
+Qed.
+
+(* the sign-stripped body of a numeric string *)
+Definition num_body (s : bytes) : bytes :=
+  match s with
+  | [] => []
+  | c :: r => if (c =? 43) || (c =? 45) then r else s
+  end.
+(* guard: the string is a well-formed integer, or its leading digit run stays below 2^64
+   (Go's ParseUint reports a range error as soon as the digits read so far overflow, before
+   it looks at the rest of the string) *)
+Definition num_guard (s : bytes) : bool :=
+  let body := num_body s in
+  forallb is_digit body || (Spec.digits_value (lead_digits body) <? two64).
+
+Lemma parse_uint_digits body :
+  body <> [] -> forallb is_digit body = true ->
+  parse_uint body = if Spec.digits_value body <? two64 then (Spec.digits_value body, 0) else (two64 - 1, 2).
+Proof.
+  intros Hne Hd. unfold parse_uint. destruct body as [|c r]; [contradiction|].
+  rewrite digits_value_unfold. apply pul_digits; [exact Hd | reflexivity].
+Qed.
+
+Lemma parse_uint_junk body :
+  forallb is_digit body = false ->
+  parse_uint body = if Spec.digits_value (lead_digits body) <? two64 then (0, 1) else (two64 - 1, 2).
+Proof.
+  intros Hd. destruct (lead_digits_split body Hd) as [j [rest [H1 [H2 H3]]]].
+  unfold parse_uint. destruct body as [|c r]; [discriminate|].
+  rewrite H1 at 1. rewrite digits_value_unfold. apply pul_junk; [exact H3 | exact H2 | reflexivity].
+Qed.
+
+Lemma go_atoi_body s :
+  s <> [] ->
+  go_atoi s =
+  (let neg := hd0 s =? 45 in
+   let '(un, e) := parse_uint (num_body s) in
+   if e =? 1 then (0%Z, 1)
+   else if negb neg && (two63 <=? un) then ((Z.of_N two63 - 1)%Z, 2)
+   else if neg && (two63 <? un) then ((- Z.of_N two63)%Z, 2)
+   else ((if neg then - Z.of_N un else Z.of_N un)%Z, 0)).
+Proof.
+  destruct s as [|c r]; [contradiction|]. intros _. unfold go_atoi, num_body, hd0.
+  reflexivity.
+Qed.
+
+Lemma int_value_body s :
+  Spec.int_value s =
+  (let neg := hd0 s =? 45 in
+   let body := num_body s in
+   match body with
+   | [] => 0%Z
+   | _ => if forallb is_digit body
+          then Spec.clamp (if neg then - Z.of_N (Spec.digits_value body) else Z.of_N (Spec.digits_value body))
+          else 0%Z
+   end).
+Proof. destruct s as [|c r]; reflexivity. Qed.
+
+(* Atoi (errors ignored) is the documented integer value whenever the guard holds *)
+Lemma atoi_val_exact s : num_guard s = true -> atoi_val s = Spec.int_value s.
+Proof.
+  intros G. unfold atoi_val. destruct s as [|c0 r0] eqn:Es; [reflexivity|]. rewrite <- Es in *.
+  assert (Hne : s <> []) by (rewrite Es; discriminate).
+  rewrite go_atoi_body by exact Hne. rewrite int_value_body. cbv zeta.
+  unfold num_guard in G. set (body := num_body s) in *. set (neg := hd0 s =? 45).
+  destruct body as [|b0 br] eqn:Eb.
+  - cbn. reflexivity.
+  - rewrite <- Eb in *. assert (Hbne : body <> []) by (rewrite Eb; discriminate).
+    destruct (forallb is_digit body) eqn:Hd.
+    + rewrite parse_uint_digits by assumption.
+      set (V := Spec.digits_value body).
+      destruct (V <? two64) eqn:EV.
+      * apply N.ltb_lt in EV. change (0 =? 1) with false. cbv iota.
+        unfold Spec.clamp. destruct neg; cbn [negb andb].
+        -- destruct (two63 <? V) eqn:E2; cbn [fst].
+           ++ apply N.ltb_lt in E2. unfold two63 in *. lia.
+           ++ apply N.ltb_ge in E2. unfold two63 in *. lia.
+        -- destruct (two63 <=? V) eqn:E2; cbn [fst].
+           ++ apply N.leb_le in E2. unfold two63 in *. lia.
+           ++ apply N.leb_gt in E2. unfold two63 in *. lia.
+      * apply N.ltb_ge in EV. change (2 =? 1) with false. cbv iota.
+        unfold Spec.clamp. destruct neg; cbn [negb andb].
+        -- change (two63 <? two64 - 1) with true. cbn [fst]. unfold two63, two64 in *. lia.
+        -- change (two63 <=? two64 - 1) with true. cbn [fst]. unfold two63, two64 in *. lia.
+    + cbn [orb] in G. rewrite parse_uint_junk by exact Hd. rewrite G. reflexivity.
+Qed.
+
+Definition is_num_op (o : mop) : bool :=
+  match o with OEq | OGe | OGt | OLe | OLt => true | _ => false end.
+
+(* the numeric comparisons are the documented comparisons of the documented integer values *)
+Lemma eval_mop_num_exact o data v :
+  is_num_op o = true -> num_guard data = true -> num_guard v = true ->
+  eval_mop o data v = Spec.mop_num o data v.
+Proof.
+  intros Ho Gd Gv. destruct o; try discriminate; cbn [eval_mop Spec.mop_num];
+    rewrite (atoi_val_exact data Gd), (atoi_val_exact v Gv).
+  - apply Z.eqb_sym.
+  - symmetry. apply Z.geb_leb.
+  - symmetry. apply Z.gtb_ltb.
+  - reflexivity.
+  - reflexivity.
+Qed.
+
+(* outside the guard the code departs from the documented value: digits that overflow uint64
+   followed by junk are read as MaxInt64 instead of 0 (Atoi's range error is ignored) *)
+Lemma atoi_overflow_junk_refuted :
+  exists s, atoi_val s <> Spec.int_value s.
+Proof.
+  exists (sstr "99999999999999999999x"). vm_compute. discriminate.
+Qed.
+
+Example num_guard_examples :
+  num_guard (sstr "-9223372036854775809") = true /\ num_guard (sstr "12ab") = true
+  /\ num_guard (sstr "99999999999999999999") = true /\ num_guard (sstr "99999999999999999999x") = false.
+Proof. vm_compute. auto. Qed.
+
+(* ==================================================================================== *)
+(* captures: TX.0-9                                                                      *)
+(* ==================================================================================== *)
+Lemma itoa_small_eqb k i : (k < 10)%nat -> (i < 10)%nat ->
+  bytes_eqb (itoa (N.of_nat k)) (itoa (N.of_nat i)) = Nat.eqb k i.
+Proof.
+  intros Hk Hi.
+  do 10 (destruct k as [|k]; [do 10 (destruct i as [|i]; [reflexivity|]); lia|]). lia.
+Qed.
+
+(* CaptureField(k, c0), CaptureField(k+1, c1), ...: TX.i holds the (i-k)-th text, every other
+   TX.0-9 entry keeps its value *)
+Lemma store_captures_get caps : forall k tx i,
+  (k + length caps <= 10)%nat -> (i < 10)%nat ->
+  tx_get (store_captures true tx k caps) (itoa (N.of_nat i))
+  = if (k <=? i)%nat && (i <? k + length caps)%nat then Some (nth (i - k) caps [])
+    else tx_get tx (itoa (N.of_nat i)).
+Proof.
+  induction caps as [|c r IH]; intros k tx i Hk Hi; cbn [store_captures length].
+  - replace (i <? k + 0)%nat with (i <? k)%nat by (f_equal; lia).
+    destruct (k <=? i)%nat eqn:A, (i <? k)%nat eqn:B; cbn [andb]; try reflexivity.
+    apply Nat.leb_le in A. apply Nat.ltb_lt in B. lia.
+  - cbn [length] in Hk. rewrite IH by lia.
+    unfold capture_field, tx_set. cbn [tx_get]. rewrite itoa_small_eqb by lia.
+    destruct (Nat.eqb k i) eqn:E.
+    + apply Nat.eqb_eq in E. subst i.
+      replace (S k <=? k)%nat with false by (symmetry; apply Nat.leb_gt; lia). cbn [andb].
+      replace (k <=? k)%nat with true by (symmetry; apply Nat.leb_le; lia).
+      replace (k <? k + S (length r))%nat with true by (symmetry; apply Nat.ltb_lt; lia).
+      cbn [andb]. rewrite Nat.sub_diag. reflexivity.
+    + apply Nat.eqb_neq in E.
+      destruct (S k <=? i)%nat eqn:A.
+      * apply Nat.leb_le in A.
+        replace (k <=? i)%nat with true by (symmetry; apply Nat.leb_le; lia).
+        replace (k + S (length r))%nat with (S k + length r)%nat by lia. cbn [andb].
+        destruct (i <? S k + length r)%nat; [|reflexivity].
+        replace (i - k)%nat with (S (i - S k)) by lia. reflexivity.
+      * apply Nat.leb_gt in A. cbn [andb].
+        replace (k <=? i)%nat with false by (symmetry; apply Nat.leb_gt; lia). reflexivity.
+Qed.
+
+Lemma store_captures_off tx k caps : store_captures false tx k caps = tx.
+Proof. revert tx k; induction caps as [|c r IH]; intros tx k; cbn [store_captures capture_field]; auto. Qed.
+
+(* @rx: number of (start, end) pairs and the text of group i in the index vector *)
+Fixpoint ngroups (idx : list Z) : nat :=
+  match idx with _ :: _ :: r => S (ngroups r) | _ => 0%nat end.
+Definition rx_group (idx : list Z) (v : bytes) (i : nat) : bytes :=
+  let st := nth (2 * i) idx (-1)%Z in
+  let en := nth (2 * i + 1) idx 0%Z in
+  if (0 <=? st)%Z then slice v st en else [].
+
+Lemma list_ind2 {A} (P : list A -> Prop) :
+  P [] -> (forall x, P [x]) -> (forall x y l, P l -> P (x :: y :: l)) -> forall l, P l.
+Proof. intros H0 H1 H2. fix F 1. intros [|x [|y l]]; [exact H0 | apply H1 | apply H2, F]. Qed.
+
+Lemma rx_groups_spec idx v : forall k,
+  (k <= 10)%nat ->
+  length (rx_groups idx v k) = Nat.min (ngroups idx) (10 - k)
+  /\ forall j, (j < Nat.min (ngroups idx) (10 - k))%nat -> nth j (rx_groups idx v k) [] = rx_group idx v j.
+Proof.
+  induction idx as [| x | st en r IH] using list_ind2; intros k Hk.
+  - cbn. split; [reflexivity | intros j Hj; lia].
+  - cbn. split; [reflexivity | intros j Hj; lia].
+  - cbn [rx_groups ngroups]. destruct (Nat.eqb k 10) eqn:E.
+    + apply Nat.eqb_eq in E. subst k. cbn [length]. split; [lia | intros j Hj; lia].
+    + apply Nat.eqb_neq in E. destruct (IH (S k)) as [I1 I2]; [lia|]. cbn [length]. split.
+      * rewrite I1. lia.
+      * intros j Hj. destruct j as [|j].
+        -- cbn [nth]. unfold rx_group. cbn [Nat.mul Nat.add nth]. reflexivity.
+        -- cbn [nth]. rewrite I2 by lia. unfold rx_group.
+           replace (2 * S j)%nat with (S (S (2 * j))) by lia.
+           replace (S (S (2 * j)) + 1)%nat with (S (S (2 * j + 1))) by lia. reflexivity.
+Qed.
+
+(* C15 captures, @rx: after a match under `capture`, TX.i holds the text of group i for every
+   group i < 10 (empty for a group that did not participate); the other TX.0-9 keep their value *)
+Lemma rx_captures idx v tx i :
+  (i < 10)%nat ->
+  tx_get (store_captures true tx 0 (snd (rx_eval (Some idx) true v))) (itoa (N.of_nat i))
+  = if (i <? ngroups idx)%nat then Some (rx_group idx v i) else tx_get tx (itoa (N.of_nat i)).
+Proof.
+  intros Hi. cbn [rx_eval snd].
+  destruct (rx_groups_spec idx v 0) as [HL HN]; [lia|].
+  replace (10 - 0)%nat with 10%nat in * by lia.
+  rewrite store_captures_get; [|rewrite HL; lia|exact Hi].
+  rewrite HL. cbn [Nat.leb andb Nat.add]. rewrite Nat.sub_0_r.
+  destruct (i <? Nat.min (ngroups idx) 10)%nat eqn:A.
+  - apply Nat.ltb_lt in A. rewrite HN by exact A.
+    replace (i <? ngroups idx)%nat with true by (symmetry; apply Nat.ltb_lt; lia). reflexivity.
+  - apply Nat.ltb_ge in A.
+    replace (i <? ngroups idx)%nat with false by (symmetry; apply Nat.ltb_ge; lia). reflexivity.
+Qed.
+
+(* C15 captures, @pm: TX.i holds the i-th reported hit for the first ten hits *)
+Lemma pm_captures ps v tx i :
+  (i < 10)%nat ->
+  tx_get (store_captures true tx 0 (snd (pm_eval ps true v))) (itoa (N.of_nat i))
+  = if (i <? length (snd (pm_eval ps true v)))%nat then Some (nth i (snd (pm_eval ps true v)) [])
+    else tx_get tx (itoa (N.of_nat i)).
+Proof.
+  intros Hi. destruct (pm_captures_sound ps v) as [HL _].
+  rewrite store_captures_get; [|lia|exact Hi]. cbn [Nat.leb andb Nat.add]. rewrite Nat.sub_0_r. reflexivity.
+Qed.
+
+(* ==================================================================================== *)
+(* operator-name parsing and negation                                                    *)
+(* ==================================================================================== *)
+Lemma exec_operator_complement r : exec_operator true r = negb (exec_operator false r).
+Proof. reflexivity. Qed.
+
+Definition plain (c : N) : bool := (c <? 128) && negb (is_unicode_space c).
+
+Lemma trim_space_plain s : s <> [] -> forallb plain s = true -> trim_space s = s.
+Proof.
+  intros Hne Hp. destruct s as [|c r]; [contradiction|].
+  assert (Hc : plain c = true) by (cbn [forallb] in Hp; apply andb_true_iff in Hp; tauto).
+  unfold plain in Hc. apply andb_true_iff in Hc as [Hc1 Hc2]. apply negb_true_iff in Hc2.
+  unfold trim_space.
+  assert (HL : trim_left_fuel (length (c :: r)) (c :: r) = c :: r).
+  { cbn [length trim_left_fuel]. unfold decode_rune. rewrite Hc1, Hc2. reflexivity. }
+  rewrite HL.
+  destruct (exists_last Hne) as [s' [d Hs]].
+  assert (Hd : plain d = true).
+  { rewrite Hs in Hp. rewrite forallb_app in Hp. apply andb_true_iff in Hp as [_ Hp]. cbn in Hp.
+    rewrite andb_true_r in Hp. exact Hp. }
+  unfold plain in Hd. apply andb_true_iff in Hd as [Hd1 Hd2]. apply negb_true_iff in Hd2.
+  cbn [length trim_right_fuel]. unfold decode_last_rune. rewrite Hs, rev_app_distr. cbn [rev app].
+  rewrite Hd1, Hd2. reflexivity.
+Qed.
+
+Lemma cut_byte_app sep a b :
+  forallb (fun c => negb (c =? sep)) a = true -> cut_byte sep (a ++ sep :: b) = (a, b, true).
+Proof.
+  induction a as [|c r IH]; cbn [forallb app cut_byte].
+  - intros _. rewrite N.eqb_refl. reflexivity.
+  - intros H. apply andb_true_iff in H as [Hc Hr]. apply negb_true_iff in Hc. rewrite Hc, IH by exact Hr. reflexivity.
+Qed.
+
+Lemma plain_not_space c : plain c = true -> negb (c =? 32) = true.
+Proof.
+  unfold plain, is_unicode_space. intros H. apply andb_true_iff in H as [_ H]. apply negb_true_iff in H.
+  apply negb_true_iff. destruct (c =? 32) eqn:E; [|reflexivity].
+  apply N.eqb_eq in E. subst c. vm_compute in H. discriminate.
+Qed.
+
+Lemma forallb_impl {A} (f g : A -> bool) l :
+  (forall x, f x = true -> g x = true) -> forallb f l = true -> forallb g l = true.
+Proof.
+  intros H. induction l as [|x l IH]; cbn [forallb]; [reflexivity|].
+  intros H1. apply andb_true_iff in H1 as [A1 A2]. rewrite (H x A1), (IH A2). reflexivity.
+Qed.
+
+(* "@name arg" *)
+Lemma parse_operator_at name arg :
+  name <> [] -> forallb plain name = true ->
+  parse_operator (64 :: name ++ 32 :: arg) = (64 :: name, name, trim_space arg).
+Proof.
+  intros Hne Hp. unfold parse_operator.
+  change (negb (64 =? 64) && negb (64 =? 33)) with false. cbv iota.
+  destruct name as [|n0 nr] eqn:En; [contradiction|]. rewrite <- En in *.
+  replace (name ++ 32 :: arg) with (n0 :: nr ++ 32 :: arg) by (rewrite En; reflexivity).
+  change ((64 =? 33) && negb (n0 =? 64)) with false. cbv iota.
+  replace (64 :: n0 :: nr ++ 32 :: arg) with ((64 :: name) ++ 32 :: arg) by (rewrite En; reflexivity).
+  rewrite cut_byte_app.
+  2:{ cbn [forallb]. change (negb (64 =? 32)) with true. cbn [andb].
+      apply (forallb_impl plain); [apply plain_not_space | exact Hp]. }
+  rewrite trim_space_plain; [|discriminate|cbn [forallb]; rewrite Hp; reflexivity].
+  change (64 =? 64) with true. reflexivity.
+Qed.
+
+(* "!@name arg": same name and argument, opRaw starts with '!' *)
+Lemma parse_operator_bang_at name arg :
+  name <> [] -> forallb plain name = true ->
+  parse_operator (33 :: 64 :: name ++ 32 :: arg) = (33 :: 64 :: name, name, trim_space arg).
+Proof.
+  intros Hne Hp. unfold parse_operator.
+  change (negb (33 =? 64) && negb (33 =? 33)) with false. cbv iota.
+  change ((33 =? 33) && negb (64 =? 64)) with false. cbv iota.
+  replace (33 :: 64 :: name ++ 32 :: arg) with ((33 :: 64 :: name) ++ 32 :: arg) by reflexivity.
+  rewrite cut_byte_app.
+  2:{ cbn [forallb]. change (negb (33 =? 32)) with true. change (negb (64 =? 32)) with true. cbn [andb].
+      apply (forallb_impl plain); [apply plain_not_space | exact Hp]. }
+  rewrite trim_space_plain; [|discriminate|cbn [forallb]; rewrite Hp; reflexivity].
+  change (33 =? 64) with false. cbv iota.
+  destruct name as [|n0 nr]; [contradiction|].
+  cbn [length]. change (2 <? S (S (S (length nr))))%nat with true.
+  change ((true && (33 =? 33)) && (64 =? 64)) with true. reflexivity.
+Qed.
+
+(* no '@' and no '!' in front: the operator is @rx and the whole text is its argument *)
+Lemma parse_operator_default_rx o :
+  hd0 o <> 64 -> hd0 o <> 33 ->
+  parse_operator o = (sstr "@rx", sstr "rx", trim_space o).
+Proof.
+  intros H1 H2. unfold parse_operator. destruct o as [|c r].
+  - vm_compute. reflexivity.
+  - cbn [hd0] in H1, H2. apply N.eqb_neq in H1, H2. rewrite H1, H2. cbn [negb andb].
+    change (cut_byte 32 (sstr "@rx " ++ c :: r)) with (sstr "@rx", c :: r, true).
+    cbv iota. replace (trim_space (sstr "@rx")) with (sstr "@rx") by (vm_compute; reflexivity).
+    reflexivity.
+Qed.
+
+(* a leading '!' without '@': negated @rx on the rest *)
+Lemma parse_operator_bang_rx o :
+  o <> [] -> hd0 o <> 64 ->
+  parse_operator (33 :: o) = (sstr "!@rx", sstr "rx", trim_space o).
+Proof.
+  intros Hne H1. unfold parse_operator. destruct o as [|c r]; [contradiction|].
+  cbn [hd0] in H1. apply N.eqb_neq in H1.
+  change (negb (33 =? 64) && negb (33 =? 33)) with false. cbv iota.
+  change (33 =? 33) with true. rewrite H1. cbn [negb andb].
+  change (cut_byte 32 (sstr "!@rx " ++ c :: r)) with (sstr "!@rx", c :: r, true).
+  cbv iota. replace (trim_space (sstr "!@rx")) with (sstr "!@rx") by (vm_compute; reflexivity).
+  reflexivity.
+Qed.
+
+(* C15 negation at rule level: "!@name arg" compiles exactly when "@name arg" does, stores
+   the same captures and matches exactly when "@name arg" does not *)
+Lemma rule_negation name arg ltbl rxm capturing tx v :
+  name <> [] -> forallb plain name = true ->
+  rule_eval (33 :: 64 :: name ++ 32 :: arg) ltbl rxm capturing tx v
+  = match rule_eval (64 :: name ++ 32 :: arg) ltbl rxm capturing tx v with
+    | None => None
+    | Some (m, tx') => Some (negb m, tx')
+    end.
+Proof.
+  intros Hne Hp. unfold rule_eval.
+  rewrite parse_operator_bang_at, parse_operator_at by assumption.
+  destruct (op_lookup op_table name) as [o|]; [|reflexivity].
+  destruct (eval_named o ltbl rxm (trim_space arg) capturing tx v) as [[r caps]|]; [|reflexivity].
+  reflexivity.
+Qed.
+
+(* ==================================================================================== *)
+(* constructor + Evaluate of the macro-argument operators                                *)
+(* ==================================================================================== *)
+Lemma run_mop_str_exact o arg tx v toks :
+  is_str_op o = true -> macro_compile arg = Some toks ->
+  exists b, run_mop o arg tx v = Some b /\ (b = true <-> Spec.mop_str o (macro_expand tx toks) v).
+Proof.
+  intros Ho Hc. unfold run_mop. rewrite Hc. eexists. split; [reflexivity|].
+  apply eval_mop_str_exact. exact Ho.
+Qed.
+
+Lemma run_mop_num_exact o arg tx v toks :
+  is_num_op o = true -> macro_compile arg = Some toks ->
+  num_guard (macro_expand tx toks) = true -> num_guard v = true ->
+  run_mop o arg tx v = Some (Spec.mop_num o (macro_expand tx toks) v).
+Proof.
+  intros Ho Hc G1 G2. unfold run_mop. rewrite Hc. f_equal. apply eval_mop_num_exact; assumption.
+Qed.
+
+(* a literal argument (no '%') is compared as it is; an empty argument is rejected *)
+Lemma run_mop_literal o arg tx v :
+  arg <> [] -> forallb (fun c => negb (c =? 37)) arg = true ->
+  run_mop o arg tx v = Some (eval_mop o arg v).
+Proof.
+  intros Hne H. unfold run_mop. rewrite macro_compile_literal by assumption.
+  rewrite macro_expand_literal. reflexivity.
+Qed.
+
+Lemma run_mop_empty o tx v : run_mop o [] tx v = None.
+Proof. reflexivity. Qed.
+
+(* the argument %{tx.KEY} is replaced by the value of TX:key (lower-cased key); when the
+   variable is not set the operator sees the text "tx.KEY" *)
+Lemma run_mop_tx_var o key tx v :
+  key <> [] -> forallb key_char key = true ->
+  run_mop o (sstr "%{tx." ++ key ++ [125]) tx v
+  = Some (eval_mop o (match tx_get tx (lower_ascii key) with Some x => x | None => sstr "tx." ++ key end) v).
+Proof.
+  intros Hne Hk. unfold run_mop. rewrite macro_compile_tx_var by assumption.
+  unfold macro_expand. cbn [flat_map expand_token]. rewrite app_nil_r. reflexivity.
+Qed.
+
+(* ==================================================================================== *)
+(* @validateUtf8Encoding: utf8.ValidString is RFC 3629 well-formedness                    *)
+(* ==================================================================================== *)
+From Coq Require Import ZifyN ZifyBool ZifyNat.
+Ltac Zify.zify_post_hook ::= Z.div_mod_to_equations.
+
+Ltac bdestr :=
+  repeat match goal with
+  | |- context [?a <? ?b] => destruct (N.ltb_spec a b)
+  | |- context [?a <=? ?b] => destruct (N.leb_spec a b)
+  | |- context [?a =? ?b] => destruct (N.eqb_spec a b)
+  end; cbn [andb orb negb] in *.
+
+Lemma enc1 r : r < 128 -> encode_rune r = [r].
+Proof. intros H. unfold encode_rune, in_rng. bdestr; try lia; reflexivity. Qed.
+Lemma enc2 r : 128 <= r -> r < 2048 -> encode_rune r = [192 + r / 64; 128 + r mod 64].
+Proof. intros H1 H2. unfold encode_rune, in_rng. bdestr; try lia; reflexivity. Qed.
+Lemma enc3 r : 2048 <= r -> r < 65536 -> ~ (55296 <= r <= 57343) ->
+  encode_rune r = [224 + r / 4096; 128 + (r / 64) mod 64; 128 + r mod 64].
+Proof. intros H1 H2 H3. unfold encode_rune, in_rng. bdestr; try lia; reflexivity. Qed.
+Lemma enc4 r : 65536 <= r -> r <= 1114111 ->
+  encode_rune r = [240 + r / 262144; 128 + (r / 4096) mod 64; 128 + (r / 64) mod 64; 128 + r mod 64].
+Proof. intros H1 H2. unfold encode_rune, in_rng. bdestr; try lia; reflexivity. Qed.
+
+Ltac leaf_bad Hk := exfalso; destruct Hk as [Hk|Hk]; [cbn [hd0] in Hk; lia | apply Hk; reflexivity].
+
+Ltac generic Hk :=
+  try lia;
+  repeat match goal with |- context [?a <=? ?b] => destruct (N.leb_spec a b); cbn [andb] end;
+  try lia; intros HD; inversion HD; subst; leaf_bad Hk.
+
+Lemma decode_valid s r k :
+  decode_rune s = (r, k) -> s <> [] -> (hd0 s < 128 \/ k <> 1%nat) ->
+  Spec.scalar r /\ k = length (encode_rune r) /\ firstn k s = encode_rune r.
+Proof.
+  destruct s as [|b0 t]; [intros _ HD; contradiction|].
+  unfold decode_rune, in_rng. intros HD _ Hk. revert HD.
+  destruct (N.ltb_spec b0 128).
+  { intros HD; inversion HD; subst. rewrite enc1 by lia. unfold Spec.scalar. repeat split; try lia. }
+  destruct (N.leb_spec 194 b0); cbn [andb]; [destruct (N.leb_spec b0 223); cbn [andb]|].
+  { (* two bytes *)
+    destruct t as [|b1 t]; [intros HD; inversion HD; subst; leaf_bad Hk|].
+    destruct (N.leb_spec 128 b1); cbn [andb]; [destruct (N.leb_spec b1 191); cbn [andb]|];
+      intros HD; inversion HD; subst; try leaf_bad Hk.
+    rewrite enc2 by lia. unfold Spec.scalar. repeat split; try lia.
+    cbn [firstn]. f_equal; [lia | f_equal; lia]. }
+  { destruct (N.leb_spec 224 b0); cbn [andb]; [destruct (N.leb_spec b0 239); cbn [andb]|].
+    { (* three bytes *)
+      destruct t as [|b1 [|b2 t]]; try (intros HD; inversion HD; subst; leaf_bad Hk).
+      destruct (N.eqb_spec b0 224); destruct (N.eqb_spec b0 237); try lia;
+      match goal with |- context [?lo <=? b1] => destruct (N.leb_spec lo b1) end; cbn [andb];
+      try (intros HD; inversion HD; subst; leaf_bad Hk);
+      match goal with |- context [b1 <=? ?hi] => destruct (N.leb_spec b1 hi) end; cbn [andb];
+      try (intros HD; inversion HD; subst; leaf_bad Hk);
+      destruct (N.leb_spec 128 b2); cbn [andb]; try (intros HD; inversion HD; subst; leaf_bad Hk);
+      destruct (N.leb_spec b2 191); cbn [andb]; try (intros HD; inversion HD; subst; leaf_bad Hk);
+      intros HD; inversion HD; subst;
+      (rewrite enc3 by lia; unfold Spec.scalar; repeat split; try lia;
+       cbn [firstn]; f_equal; [lia | f_equal; [lia | f_equal; lia]]). }
+    { destruct (N.leb_spec 240 b0); cbn [andb]; [destruct (N.leb_spec b0 244); cbn [andb]|];
+        try (intros HD; inversion HD; subst; leaf_bad Hk).
+      (* four bytes *)
+      destruct t as [|b1 [|b2 [|b3 t]]]; try (intros HD; inversion HD; subst; leaf_bad Hk).
+      destruct (N.eqb_spec b0 240); destruct (N.eqb_spec b0 244); try lia;
+      match goal with |- context [?lo <=? b1] => destruct (N.leb_spec lo b1) end; cbn [andb];
+      try (intros HD; inversion HD; subst; leaf_bad Hk);
+      match goal with |- context [b1 <=? ?hi] => destruct (N.leb_spec b1 hi) end; cbn [andb];
+      try (intros HD; inversion HD; subst; leaf_bad Hk);
+      destruct (N.leb_spec 128 b2); cbn [andb]; try (intros HD; inversion HD; subst; leaf_bad Hk);
+      destruct (N.leb_spec b2 191); cbn [andb]; try (intros HD; inversion HD; subst; leaf_bad Hk);
+      destruct (N.leb_spec 128 b3); cbn [andb]; try (intros HD; inversion HD; subst; leaf_bad Hk);
+      destruct (N.leb_spec b3 191); cbn [andb]; try (intros HD; inversion HD; subst; leaf_bad Hk);
+      intros HD; inversion HD; subst;
+      (rewrite enc4 by lia; unfold Spec.scalar; repeat split; try lia;
+       cbn [firstn]; f_equal; [lia | f_equal; [lia | f_equal; [lia | f_equal; lia]]]). }
+    { generic Hk. } }
+  { generic Hk. }
+Qed.
+
+Ltac bprune :=
+  repeat (match goal with
+          | |- context [?a =? ?b] => destruct (N.eqb_spec a b)
+          | |- context [?a <? ?b] => destruct (N.ltb_spec a b)
+          | |- context [?a <=? ?b] => destruct (N.leb_spec a b)
+          end; cbn [andb orb negb]; try (exfalso; lia)).
+
+Lemma mod_shift K x M c : K = c * M -> x < M -> (K + x) mod M = x.
+Proof.
+  intros -> Hx. assert (M <> 0) by lia. rewrite N.add_comm, N.mod_add by assumption. apply N.mod_small. exact Hx.
+Qed.
+
+Lemma decode_encode r rest :
+  Spec.scalar r -> decode_rune (encode_rune r ++ rest) = (r, length (encode_rune r)).
+Proof.
+  intros [H1 H2].
+  destruct (N.ltb_spec r 128).
+  { rewrite enc1 by lia. cbn [app length]. unfold decode_rune. bprune. reflexivity. }
+  destruct (N.ltb_spec r 2048).
+  { rewrite enc2 by lia. cbn [app length]. unfold decode_rune, in_rng. bprune. f_equal.
+    rewrite (mod_shift 192 (r / 64) 32 6) by lia.
+    rewrite (mod_shift 128 (r mod 64) 64 2) by lia. lia. }
+  destruct (N.ltb_spec r 65536).
+  { assert (Hq : r / 4096 = r / 64 / 64) by (rewrite N.div_div by lia; reflexivity).
+    rewrite enc3 by lia. rewrite Hq.
+    pose proof (N.div_mod r 64 ltac:(lia)) as Hr. pose proof (N.mod_lt r 64 ltac:(lia)) as Hm.
+    set (q := r / 64) in *. set (m := r mod 64) in *. clearbody q m. subst r.
+    cbn [app length]. unfold decode_rune, in_rng. bprune; f_equal;
+    rewrite (mod_shift 224 (q / 64) 16 14) by lia;
+    rewrite (mod_shift 128 (q mod 64) 64 2) by lia;
+    rewrite (mod_shift 128 m 64 2) by lia; lia. }
+  assert (Hq : r / 4096 = r / 64 / 64) by (rewrite N.div_div by lia; reflexivity).
+  assert (Hp : r / 262144 = r / 64 / 64 / 64) by (rewrite !N.div_div by lia; reflexivity).
+  rewrite enc4 by lia. rewrite Hq, Hp.
+  pose proof (N.div_mod r 64 ltac:(lia)) as Hr. pose proof (N.mod_lt r 64 ltac:(lia)) as Hm.
+  set (q := r / 64) in *. set (m := r mod 64) in *. clearbody q m. subst r.
+  pose proof (N.div_mod q 64 ltac:(lia)) as Hq2. pose proof (N.mod_lt q 64 ltac:(lia)) as Hn.
+  set (p := q / 64) in *. set (n := q mod 64) in *. clearbody p n. subst q.
+  cbn [app length]. unfold decode_rune, in_rng. bprune; f_equal;
+    rewrite (mod_shift 240 (p / 64) 8 30) by lia;
+    rewrite (mod_shift 128 (p mod 64) 64 2) by lia;
+    rewrite (mod_shift 128 n 64 2) by lia;
+    rewrite (mod_shift 128 m 64 2) by lia; lia.
+Qed.
+
+Lemma enc_len r : Spec.scalar r ->
+  (r < 128 /\ encode_rune r = [r]) \/ (2 <= length (encode_rune r))%nat.
+Proof.
+  intros [H1 H2]. destruct (N.ltb_spec r 128); [left; split; [assumption | apply enc1; assumption]|].
+  right. destruct (N.ltb_spec r 2048); [rewrite enc2 by lia; cbn; lia|].
+  destruct (N.ltb_spec r 65536); [rewrite enc3 by lia; cbn; lia|].
+  rewrite enc4 by lia. cbn. lia.
+Qed.
+
+Lemma utf8_valid_fuel_wf fuel : forall s, utf8_valid_fuel fuel s = true -> Spec.utf8_wf s.
+Proof.
+  induction fuel as [|f IH]; intros s; cbn [utf8_valid_fuel].
+  - destruct s; [|discriminate]. intros _. exists []. split; [constructor | reflexivity].
+  - destruct s as [|b t]; [intros _; exists []; split; [constructor | reflexivity]|].
+    destruct (decode_rune (b :: t)) as [r n] eqn:E.
+    destruct ((128 <=? b) && Nat.eqb n 1) eqn:C; [discriminate|].
+    intros H. apply IH in H as [rs [Hrs Hs]].
+    assert (Hk : hd0 (b :: t) < 128 \/ n <> 1%nat).
+    { cbn [hd0]. apply andb_false_iff in C as [C|C]; [left; apply N.leb_gt; exact C | right; apply Nat.eqb_neq; exact C]. }
+    destruct (decode_valid (b :: t) r n E ltac:(discriminate) Hk) as [Hsc [Hn Hf]].
+    exists (r :: rs). split; [constructor; assumption|].
+    cbn [flat_map]. rewrite <- Hs, <- Hf. symmetry. apply firstn_skipn.
+Qed.
+
+Lemma utf8_wf_valid_fuel rs : Forall Spec.scalar rs ->
+  forall fuel, (length (flat_map encode_rune rs) <= fuel)%nat ->
+  utf8_valid_fuel fuel (flat_map encode_rune rs) = true.
+Proof.
+  induction 1 as [|r rs Hr Hrs IH]; intros fuel Hf.
+  - cbn [flat_map]. destruct fuel; reflexivity.
+  - cbn [flat_map] in *. rewrite app_length in Hf.
+    pose proof (decode_encode r (flat_map encode_rune rs) Hr) as HD.
+    destruct (enc_len r Hr) as [[Hlt He]|Hlen].
+    + rewrite He in *. cbn [app length] in *. destruct fuel as [|f]; [lia|].
+      cbn [utf8_valid_fuel]. rewrite HD. cbn [Nat.eqb].
+      replace (128 <=? r) with false by (symmetry; apply N.leb_gt; exact Hlt). cbn [andb skipn].
+      apply IH. lia.
+    + destruct fuel as [|f]; [lia|].
+      destruct (encode_rune r) as [|b0 e] eqn:Ee; [cbn in Hlen; lia|].
+      cbn [app utf8_valid_fuel]. cbn [app] in HD. rewrite HD.
+      replace (Nat.eqb (length (b0 :: e)) 1) with false by (symmetry; apply Nat.eqb_neq; lia).
+      rewrite andb_false_r.
+      change (b0 :: e ++ flat_map encode_rune rs) with ((b0 :: e) ++ flat_map encode_rune rs).
+      rewrite skipn_app, skipn_all, Nat.sub_diag. cbn [app skipn]. apply IH. cbn [length] in *. lia.
+Qed.
+
+(* @validateUtf8Encoding matches exactly the values that are not well-formed UTF-8 (RFC 3629) *)
+Lemma utf8_valid_exact s : utf8_valid s = true <-> Spec.utf8_wf s.
+Proof.
+  split.
+  - apply utf8_valid_fuel_wf.
+  - intros [rs [Hrs ->]]. apply utf8_wf_valid_fuel; [exact Hrs | lia].
+Qed.
+
+Lemma vutf8_eval_exact v : vutf8_eval v = true <-> ~ Spec.utf8_wf v.
+Proof.
+  unfold vutf8_eval. rewrite negb_true_iff. rewrite <- utf8_valid_exact.
+  destruct (utf8_valid v); split; intros H; try discriminate; try reflexivity; try congruence.
 Qed.
